@@ -1280,6 +1280,10 @@ def _collect_add_transpose_forest(
         or not _is_inverse_perm(perm_fwd, perm_inv)
     ):
         return None
+    if input_transposes & output_transposes:
+        # With a self-inverse permutation a Transpose can leave the forest and
+        # feed it again; it cannot be both bypassed and removed.
+        return None
     return add_nodes, perm_fwd, perm_inv, input_transposes, output_transposes
 
 
@@ -1381,6 +1385,8 @@ def remove_redundant_transpose_pairs_ir(graph: ir.Graph) -> None:
                 continue
 
             add_chain: List[ir.Node] = []
+            chain_input_transposes: Set[int] = set()
+            chain_output_transposes: Set[int] = set()
             perm_fwd: Optional[List[int]] = None
             perm_inv: Optional[List[int]] = None
             ok = True
@@ -1458,6 +1464,8 @@ def remove_redundant_transpose_pairs_ir(graph: ir.Graph) -> None:
                     break
 
                 add_chain.append(cur)
+                chain_input_transposes.update(id(t) for t, _ in transpose_inputs)
+                chain_output_transposes.update(id(c) for c in other_consumers)
                 if add_consumers:
                     prev = cur
                     cur = add_consumers[0]
@@ -1471,6 +1479,10 @@ def remove_redundant_transpose_pairs_ir(graph: ir.Graph) -> None:
                 or perm_inv is None
                 or not _is_inverse_perm(perm_fwd, perm_inv)
             ):
+                continue
+            if chain_input_transposes & chain_output_transposes:
+                # Self-inverse permutation: a Transpose leaves the chain and
+                # feeds it again; it cannot be both bypassed and removed.
                 continue
 
             # Rewrite: move Add chain to pre-transpose layout (NCHW).
@@ -1571,6 +1583,10 @@ def remove_redundant_transpose_pairs_ir(graph: ir.Graph) -> None:
             if not ok:
                 continue
             if t2_node not in output_transposes:
+                continue
+            if output_transposes & transpose_nodes:
+                # Self-inverse permutation: a Transpose of an interior value
+                # feeds the DAG again; bypassing it would drop a real transpose.
                 continue
 
             # Rewrite: replace transpose outputs feeding elementwise nodes with
